@@ -19,6 +19,7 @@ type qInst struct {
 	guard string // the fact holds under this path condition ("" = always)
 	bv    string // bound variable symbol, e.g. |q!i!40|
 	sort  string
+	more  [][2]string // further bound variables (symbol, sort) of a multi-variable quantifier
 	body  string
 	line  int // for global facts: index in ctx.lines (must precede the obligation's prefix); -1 for path facts
 }
@@ -96,20 +97,31 @@ func topArgs(s string) (op string, args []string, ok bool) {
 
 // parseForall recognises "(forall ((|q!x!N| Sort)) BODY)" with exactly one bound variable.
 func parseForall(s string) (bv, sort, body string, ok bool) {
+	vs, body, ok := parseForallN(s)
+	if !ok || len(vs) != 1 {
+		return "", "", "", false
+	}
+	return vs[0][0], vs[0][1], body, true
+}
+
+// parseForallN recognises "(forall ((|q!x| S) (|q!y| T) ...) BODY)".
+func parseForallN(s string) (vars [][2]string, body string, ok bool) {
 	op, args, ok1 := topArgs(s)
 	if !ok1 || op != "forall" || len(args) != 2 {
-		return "", "", "", false
+		return nil, "", false
 	}
-	_, bs, ok2 := topArgs(args[0]) // "((|q| Int))" -> op "(|q| Int)"
-	if !ok2 || len(bs) != 0 {
-		return "", "", "", false
+	first, rest, ok2 := topArgs(args[0])
+	if !ok2 {
+		return nil, "", false
 	}
-	bop, _, _ := topArgs(args[0])
-	v, vs, ok3 := topArgs(bop)
-	if !ok3 || len(vs) != 1 || !strings.HasPrefix(v, "|q!") {
-		return "", "", "", false
+	for _, b := range append([]string{first}, rest...) {
+		v, vs, ok3 := topArgs(b)
+		if !ok3 || len(vs) != 1 || !strings.HasPrefix(v, "|q!") {
+			return nil, "", false
+		}
+		vars = append(vars, [2]string{v, vs[0]})
 	}
-	return v, vs[0], args[1], true
+	return vars, args[1], true
 }
 
 // skolemise replaces the positive top-level universal quantifiers of goal g by fresh constants.
@@ -176,19 +188,30 @@ func (fx *FnExec) instances(st *State, sks [][2]string, prefix int) []string {
 	var out []string
 	seen := map[string]bool{}
 	add := func(q qInst) {
-		for _, sk := range sks {
-			if sk[1] != q.sort {
-				continue
+		vars := append([][2]string{{q.bv, q.sort}}, q.more...)
+		var rec func(i int, body string)
+		rec = func(i int, body string) {
+			if len(out) > 400 {
+				return
 			}
-			inst := strings.ReplaceAll(q.body, q.bv, sk[0])
-			if q.guard != "" {
-				inst = "(=> " + q.guard + " " + inst + ")"
+			if i == len(vars) {
+				inst := body
+				if q.guard != "" {
+					inst = "(=> " + q.guard + " " + inst + ")"
+				}
+				if !seen[inst] {
+					seen[inst] = true
+					out = append(out, inst)
+				}
+				return
 			}
-			if !seen[inst] {
-				seen[inst] = true
-				out = append(out, inst)
+			for _, sk := range sks {
+				if sk[1] == vars[i][1] {
+					rec(i+1, strings.ReplaceAll(body, vars[i][0], sk[0]))
+				}
 			}
 		}
+		rec(0, q.body)
 	}
 	for _, q := range st.qinst {
 		add(q)
